@@ -45,7 +45,7 @@ REGISTRY.add(Contract(
     configs=[{"kind": k} for k in list(DOC_KINDS) + ["<symbolic>", "TCP", ""]],
     ensures=["k in ('inet', 'inet4', 'inet6', 'tcp', 'tcp4', 'tcp6', 'udp', 'udp4', 'udp6', 'unix', 'all')"],
     raises={"ValueError": "k not in ('inet', 'inet4', 'inet6', 'tcp', 'tcp4', 'tcp6', 'udp', 'udp4', 'udp6', 'unix', 'all')"},
-    canaries=[], replay=None,
+    canaries=[], replay="c11:kind",
     note="the 11 documented kinds are accepted, every other string raises ValueError"))
 
 
